@@ -86,3 +86,68 @@ def classify(pid, failure, impl):
         except Exception:
             pass
     return None
+
+
+# ---------------------------------------------------------------------------------------------------
+from .common import unhex, ParseResult, strip_ann  # noqa: E402
+import re  # noqa: E402
+
+
+def d8_target(t: bytes) -> bool:
+    """targets for which rhymuri's text -> Uri -> text -> Uri is not the identity"""
+    if re.search(rb"\[[^\]]*[A-F][^\]]*\]", t) or re.search(rb"\[[vV][^\]]*\]", t):
+        return True
+    if re.search(rb"%[0-9A-Fa-f]?($|[/?#@:\]])", t):
+        return True     # an incomplete percent escape is dropped silently
+    first = re.split(rb"[/?#]", t, 1)[0]
+    return bool(re.search(rb"%3[Aa]", first)) and b":" not in first[:first.lower().find(b"%3a")]
+
+
+@classifier("rhymessage-generate-limit-underflow")
+def _kf_generate(pid, f, impl):
+    m = f.group.members[f.members[0]]
+    t = m.op.split(" ")
+    return t[0] in ("REQGEN", "RESPGEN", "REQGRT", "RESPGRT") and t[1] in ("0", "1") and "P:arithmetic" in impl[f.group.tag(f.members[0])]
+
+
+@classifier("rhymessage-continuation-lines-unlimited")
+def _kf_cont(pid, f, impl):
+    return f.oracle == "accept-within-limits" and "continuation line" in f.what
+
+
+@classifier("rhymuri-display-parse-not-identity")
+def _kf_uri(pid, f, impl):
+    g = f.group
+    if g.kind == "req-value":
+        return f.oracle in ("roundtrip", "regenerate") and d8_target(unhex(g.meta["target"])) and ("target differs" in f.what or f.oracle == "regenerate")
+    if g.kind == "req-reparse":
+        s = unhex(g.meta["stream"])
+        line = s.split(b"\r\n", 1)[0].split(b" ")
+        return len(line) >= 2 and d8_target(line[1]) and ("field u" in f.what or "field t" in f.what)
+    return False
+
+
+@classifier("rhymessage-header-limit-counts-dangling-cr-response")
+def _kf_resp_hl(pid, f, impl):
+    g = f.group
+    hl = g.meta.get("hl")
+    if hl is None:
+        return False
+    for i in f.members:
+        m = g.members[i]
+        t = m.op.split(" ")
+        if t[0] != "RESP":
+            continue
+        r = ParseResult(impl[g.tag(i)])
+        if r.verdict != "rejected" or r.category != "Headers(HeaderLineTooLong)":
+            continue
+        ds = [unhex(d) for d in t[-1].split("|")]
+        ncalls = len(r.steps)
+        presented = b"".join(ds[:ncalls])
+        if not presented.endswith(b"\r"):
+            continue
+        last = presented.rfind(b"\r\n")
+        unterminated = presented[last + 2:] if last >= 0 else presented
+        if len(unterminated) + 1 == hl:
+            return True
+    return False
